@@ -6,6 +6,7 @@ import PrioModel.Agg
 import PrioModel.Prng
 import PrioModel.TraceVdaf
 import PrioModel.IdpfExec
+import PrioModel.Poly
 
 /-! Line-protocol driver: one request per line on stdin, one answer per line on stdout. -/
 open Prio
@@ -370,10 +371,100 @@ def handleIdpf (args : List String) : String :=
       | _, _, _, _, _, _ => "bad-op"
   | _ => "bad-op"
 
+/-- `F::root(l)` and `F::half()` of a named NTT field at the executable instance -/
+def rootOf (name : String) (q : Nat) (l : Nat) : Option (Fin (q + 1)) :=
+  match findParams name with
+  | some P =>
+    if l < min (P.roots.length) (P.numRoots + 1) then some (Fin.ofNat (q + 1) (P.residue (P.roots.getD l 0))) else none
+  | none => none
+
+def halfOf (name : String) (q : Nat) : Fin (q + 1) :=
+  match findParams name with
+  | some P => Fin.ofNat (q + 1) (P.residue P.half)
+  | none => 0
+
+def showR {q : Nat} (sz : Nat) (r : Ntt.R (Array (Fin (q + 1)))) : String :=
+  match r with
+  | .ok a => "ok " ++ toHex (encodeFieldVec sz a.toList)
+  | .err .outputTooSmall => "err OutputTooSmall"
+  | .err .sizeTooLarge => "err SizeTooLarge"
+  | .err .sizeInvalid => "err SizeInvalid"
+  | .panic => "panic"
+
+def sizeInvOf (q : Nat) (n : Nat) : Fin (q + 1) := (Fin.ofNat (q + 1) n)⁻¹
+
+def handlePoly (op : String) (args : List String) : String :=
+  match args with
+  | f :: rest => withField f fun q sz =>
+    let root := rootOf f q
+    let vec (h : String) : Option (Array (Fin (q + 1))) := (hexVec q sz h).map List.toArray
+    match op, rest with
+    | "ntt", [setS, outLen, size, inp] =>
+      match outLen.toNat?, size.toNat?, vec inp with
+      | some ol, some n, some i => showR sz (Ntt.nttInternal root ol (Array.replicate ol 0) i n (setS == "1"))
+      | _, _, _ => "bad-op"
+    | "nttinv", [outLen, size, inp] =>
+      match outLen.toNat?, size.toNat?, vec inp with
+      | some ol, some n, some i =>
+        if n = 0 then "panic" else showR sz (Ntt.nttInv root (Array.replicate ol 0) i n (sizeInvOf q n))
+      | _, _, _ => "bad-op"
+    | "rootpow", [n] =>
+      match n.toNat? with
+      | some n =>
+        if n = 0 ∨ 2 ^ Nat.log2 n ≠ n then "panic" else
+        match Ntt.nthRootPowers root (Nat.log2 n) with
+        | some a => "ok " ++ toHex (encodeFieldVec sz a.toList)
+        | none => "panic"
+      | none => "bad-op"
+    | "lageval", [n, ys, x] =>
+      match n.toNat?, vec ys, hexVec q sz x with
+      | some n, some ys, some [x] =>
+        if n = 0 ∨ 2 ^ Nat.log2 n ≠ n then "panic" else
+        match Ntt.nthRootPowers root (Nat.log2 n) with
+        | some roots => "ok " ++ toHex (encodeFieldVec sz [Ntt.polyEvalLagrange roots (halfOf f q) (Nat.log2 n) ys x])
+        | none => "panic"
+      | _, _, _ => "bad-op"
+    | "extend", [nv, poly] =>
+      match nv.toNat?, vec poly with
+      | some nv, some p =>
+        let n := p.size
+        if n = 0 ∨ 2 ^ Nat.log2 n ≠ n ∨ nv > n then "panic" else
+        match Ntt.nthRootPowers root (Nat.log2 n) with
+        | some roots => "ok " ++ toHex (encodeFieldVec sz (Ntt.extendValues roots p nv).toList)
+        | none => "panic"
+      | _, _ => "bad-op"
+    | "double", [outLen, ev] =>
+      match outLen.toNat?, vec ev with
+      | some ol, some e => showR sz (Ntt.doubleEvaluations root ol e (sizeInvOf q e.size))
+      | _, _ => "bad-op"
+    | "mullag", [outLen, p, qq] =>
+      match outLen.toNat?, vec p, vec qq with
+      | some ol, some p, some q2 => showR sz (Ntt.polyMulLagrange root ol p q2 (sizeInvOf q p.size))
+      | _, _, _ => "bad-op"
+    | "rangecheck", [a, b] =>
+      match a.toNat?, b.toNat? with
+      | some a, some b => "ok " ++ toHex (encodeFieldVec sz (Ntt.polyRangeCheck (Fin.ofNat (q + 1)) a b))
+      | _, _ => "bad-op"
+    | "evalmono", [p, x] =>
+      match hexVec q sz p, hexVec q sz x with
+      | some p, some [x] => "ok " ++ toHex (encodeFieldVec sz [Ntt.polyEvalMonomial p x])
+      | _, _ => "bad-op"
+    | "deg", [p] =>
+      match hexVec q sz p with
+      | some p => toString (Ntt.polyDeg p)
+      | none => "bad-op"
+    | "mulmono", [p, qq] =>
+      match hexVec q sz p, hexVec q sz qq with
+      | some p, some q2 => "ok " ++ toHex (encodeFieldVec sz (Ntt.polyMulMonomial p q2))
+      | _, _ => "bad-op"
+    | _, _ => "bad-op"
+  | [] => "bad-op"
+
 def handle (line : String) : String :=
   match line.trimAscii.toString.splitOn " " with
   | "fp" :: rest => handleFp rest
   | "dec" :: rest => handleDec rest
+  | "poly" :: op :: rest => handlePoly op rest
   | "idpf" :: rest => handleIdpf rest
   | "pp" :: r :: sl :: sh :: toks =>
     match r.toNat?, sl.toNat?, sh.toNat? with
